@@ -586,7 +586,7 @@ impl C11 {
         // (search units, cases per unit)
         match self.ctx.tier {
             Tier::Quick => (256, 8000),
-            Tier::Thorough => (2048, 20000),
+            Tier::Thorough => (4096, 40000),
         }
     }
 }
